@@ -41,7 +41,13 @@ pub fn normalise_sig(sig: &str) -> String {
             out.push(p.to_string());
         }
     }
-    out.join(":")
+    let joined = out.join(":");
+    if joined.starts_with("c03:") {
+        // replica divergence: which observable of the cell differs first depends on pool indices;
+        // one class for the whole cell
+        return joined.replace(":cell-data", ":cell").replace(":cell-style", ":cell");
+    }
+    joined
 }
 
 /// Only the FIRST failure of a history is reported: once an undo has left the workbook in a state
